@@ -11,6 +11,8 @@ Contents
 * `markDirty` / `setOffset` characterisation and frame lemmas
 * `Obs.step` facts (what the observer may change, what it forwards)
 * `listen` / `ack` / saver micro-steps / `saveAll` decomposition
+* life cycle: `openSession`, `closeSession`, `rebalanceSession` (`closedOf`, `rebalBase`, `rebalDone`,
+  `rebalanceSession_cases`), `reopenStream` (`reopenStream_cases`)
 * "what each op can change" lemmas for `step`
 * `run` / `runTrace` bookkeeping
 -/
@@ -247,10 +249,13 @@ end AMap
 /-- tracked sequence number of a vBucket (0 when the stream has no entry) -/
 def posSeq (s : St) (vb : Vb) : Nat := ((s.offsets.get? vb).map (·.seq)).getD 0
 
-/-- ops that keep the stream object (and its durable environment's identity):
-    everything but open / close / crash / setStore / setFlog -/
+/-- ops that keep the stream object, its observers and loaded positions (and its durable
+    environment's identity): everything but open / close / crash / setStore / setFlog / rebalance.
+    A rebalance keeps the stream object but closes it, changes the range and loads the positions
+    again from the store (they can move backwards across it), so it is a boundary like close+open;
+    `.reopen` is in-session (it changes no position, only the observer's branch id). -/
 def inSession : Op → Bool
-  | .open | .close | .crash | .setStore _ _ | .setFlog _ _ => false
+  | .open | .close | .crash | .setStore _ _ | .setFlog _ _ | .rebalance _ _ => false
   | _ => true
 
 /-- `setOffset` takes the offset: range guard and regression guard -/
@@ -1201,6 +1206,278 @@ theorem openSession_of_load_some {s : St} {offs : AMap Offset} {dirty : List Vb}
 @[simp] theorem crash_ctxs (s : St) : (crash s).1.ctxs = s.ctxs := by
   rfl
 
+/-! ### `stream.Rebalance` and `reopenStream` -/
+
+/-- the state `stream.Close` leaves when the stream was open -/
+def closedOf (s : St) : St :=
+  { s with isOpen := false, offsets := [], dirtyMaps := s.dirtyMaps.set s.nextGen [],
+           curGen := s.nextGen, nextGen := s.nextGen + 1,
+           observers := s.observers.map (fun (vb, o) => (vb, o.close.closeEnd)), obsNil := true }
+
+theorem closeSession_of_open {s : St} (h : s.isOpen = true) :
+    closeSession s = (closedOf s, s.offsets.map fun p => Obsv.closereq p.1) := by
+  simp [closeSession, h, closedOf]
+
+theorem closeSession_of_not_open {s : St} (h : s.isOpen = false) : closeSession s = (s, [.bad "not open"]) := by
+  simp [closeSession, h]
+
+/-- the closed stream object with the new range: what a rebalance loads from -/
+def rebalBase (s : St) (lo hi : Vb) : St :=
+  { closedOf s with cfg := { s.cfg with lo := lo, hi := hi } }
+
+/-- the state after a rebalance whose load succeeded -/
+def rebalDone (s : St) (lo hi : Vb) (offs : AMap Offset) (dirty : List Vb) (any : Bool) : St :=
+  { rebalBase s lo hi with isOpen := true, offsets := offs, dirtyMaps := s.dirtyMaps.set s.nextGen dirty,
+                           anyDirty := any, observers := (offs.map fun p => (p.1, initObs s p.1 p.2)),
+                           obsNil := false }
+
+@[simp] theorem rebalBase_cfg (s : St) (lo hi : Vb) : (rebalBase s lo hi).cfg = { s.cfg with lo := lo, hi := hi } := rfl
+@[simp] theorem rebalBase_store (s : St) (lo hi : Vb) : (rebalBase s lo hi).store = s.store := rfl
+@[simp] theorem rebalBase_high (s : St) (lo hi : Vb) : (rebalBase s lo hi).high = s.high := rfl
+@[simp] theorem rebalBase_flog (s : St) (lo hi : Vb) : (rebalBase s lo hi).flog = s.flog := rfl
+@[simp] theorem rebalDone_cfg (s : St) (lo hi : Vb) (offs : AMap Offset) (dirty : List Vb) (any : Bool) :
+    (rebalDone s lo hi offs dirty any).cfg = { s.cfg with lo := lo, hi := hi } := rfl
+@[simp] theorem rebalDone_offsets (s : St) (lo hi : Vb) (offs : AMap Offset) (dirty : List Vb) (any : Bool) :
+    (rebalDone s lo hi offs dirty any).offsets = offs := rfl
+@[simp] theorem rebalDone_observers (s : St) (lo hi : Vb) (offs : AMap Offset) (dirty : List Vb) (any : Bool) :
+    (rebalDone s lo hi offs dirty any).observers = offs.map fun p => (p.1, initObs s p.1 p.2) := rfl
+@[simp] theorem rebalDone_isOpen (s : St) (lo hi : Vb) (offs : AMap Offset) (dirty : List Vb) (any : Bool) :
+    (rebalDone s lo hi offs dirty any).isOpen = true := rfl
+@[simp] theorem rebalDone_anyDirty (s : St) (lo hi : Vb) (offs : AMap Offset) (dirty : List Vb) (any : Bool) :
+    (rebalDone s lo hi offs dirty any).anyDirty = any := rfl
+@[simp] theorem rebalDone_curGen (s : St) (lo hi : Vb) (offs : AMap Offset) (dirty : List Vb) (any : Bool) :
+    (rebalDone s lo hi offs dirty any).curGen = s.nextGen := rfl
+@[simp] theorem rebalDone_nextGen (s : St) (lo hi : Vb) (offs : AMap Offset) (dirty : List Vb) (any : Bool) :
+    (rebalDone s lo hi offs dirty any).nextGen = s.nextGen + 1 := rfl
+@[simp] theorem rebalDone_dirtyMaps (s : St) (lo hi : Vb) (offs : AMap Offset) (dirty : List Vb) (any : Bool) :
+    (rebalDone s lo hi offs dirty any).dirtyMaps = s.dirtyMaps.set s.nextGen dirty := rfl
+@[simp] theorem rebalDone_curDirty (s : St) (lo hi : Vb) (offs : AMap Offset) (dirty : List Vb) (any : Bool) :
+    curDirty (rebalDone s lo hi offs dirty any) = dirty := by
+  simp [curDirty, AMap.get?_set_same]
+@[simp] theorem rebalDone_store (s : St) (lo hi : Vb) (offs : AMap Offset) (dirty : List Vb) (any : Bool) :
+    (rebalDone s lo hi offs dirty any).store = s.store := rfl
+@[simp] theorem rebalDone_high (s : St) (lo hi : Vb) (offs : AMap Offset) (dirty : List Vb) (any : Bool) :
+    (rebalDone s lo hi offs dirty any).high = s.high := rfl
+@[simp] theorem rebalDone_flog (s : St) (lo hi : Vb) (offs : AMap Offset) (dirty : List Vb) (any : Bool) :
+    (rebalDone s lo hi offs dirty any).flog = s.flog := rfl
+@[simp] theorem rebalDone_sess (s : St) (lo hi : Vb) (offs : AMap Offset) (dirty : List Vb) (any : Bool) :
+    (rebalDone s lo hi offs dirty any).sess = s.sess := rfl
+@[simp] theorem rebalDone_ctxs (s : St) (lo hi : Vb) (offs : AMap Offset) (dirty : List Vb) (any : Bool) :
+    (rebalDone s lo hi offs dirty any).ctxs = s.ctxs := rfl
+@[simp] theorem rebalDone_savers (s : St) (lo hi : Vb) (offs : AMap Offset) (dirty : List Vb) (any : Bool) :
+    (rebalDone s lo hi offs dirty any).savers = s.savers := rfl
+@[simp] theorem rebalDone_lockHeld (s : St) (lo hi : Vb) (offs : AMap Offset) (dirty : List Vb) (any : Bool) :
+    (rebalDone s lo hi offs dirty any).lockHeld = s.lockHeld := rfl
+@[simp] theorem rebalDone_obsNil (s : St) (lo hi : Vb) (offs : AMap Offset) (dirty : List Vb) (any : Bool) :
+    (rebalDone s lo hi offs dirty any).obsNil = false := rfl
+@[simp] theorem rebalDone_everOpened (s : St) (lo hi : Vb) (offs : AMap Offset) (dirty : List Vb) (any : Bool) :
+    (rebalDone s lo hi offs dirty any).everOpened = s.everOpened := rfl
+
+/-- `checkpoint.Load` reads the configuration, the store, the high seqnos and the failover logs only -/
+theorem load_congr {s t : St} (h1 : t.cfg = s.cfg) (h2 : t.store = s.store) (h3 : t.high = s.high)
+    (h4 : t.flog = s.flog) : load t = load s := by
+  cases s; cases t
+  simp only at h1 h2 h3 h4
+  subst h1 h2 h3 h4
+  rfl
+
+theorem rebalanceSession_of_not_open {s : St} (lo hi : Vb) (h : s.isOpen = false) :
+    rebalanceSession s lo hi = (s, [.bad "not open"]) := by
+  simp [rebalanceSession, h]
+
+theorem rebalanceSession_of_savers {s : St} (lo hi : Vb) (h : s.isOpen = true) (hs : s.savers ≠ []) :
+    rebalanceSession s lo hi = (s, [.bad "saver in flight"]) := by
+  have : s.savers.isEmpty = false := by cases hh : s.savers <;> simp_all
+  simp [rebalanceSession, h, this]
+
+theorem rebalanceSession_of_empty {s : St} {lo hi : Vb} (h : s.isOpen = true) (hs : s.savers = []) (hr : hi < lo) :
+    rebalanceSession s lo hi = (s, [.bad "empty range"]) := by
+  have hr' : lo > hi := hr
+  have hs' : s.savers.isEmpty = true := by rw [hs]; rfl
+  simp [rebalanceSession, h, hs', hr']
+
+theorem rebalanceSession_of_load_none {s : St} {lo hi : Vb} (h : s.isOpen = true) (hs : s.savers = [])
+    (hr : lo ≤ hi) (hl : load (rebalBase s lo hi) = none) :
+    rebalanceSession s lo hi =
+      ({ rebalBase s lo hi with everOpened := false },
+       (s.offsets.map fun p => Obsv.closereq p.1) ++ [.failstop "checkpoint-ahead"]) := by
+  have hr' : ¬ lo > hi := Nat.not_lt.2 hr
+  have hs' : s.savers.isEmpty = true := by rw [hs]; rfl
+  simp only [rebalBase, closedOf] at hl
+  simp [rebalanceSession, h, hs', hr', closeSession, hl, rebalBase, closedOf]
+
+theorem rebalanceSession_of_load_some {s : St} {lo hi : Vb} {offs : AMap Offset} {dirty : List Vb} {any : Bool}
+    (h : s.isOpen = true) (hs : s.savers = []) (hr : lo ≤ hi)
+    (hl : load (rebalBase s lo hi) = some (offs, dirty, any)) :
+    rebalanceSession s lo hi =
+      (rebalDone s lo hi offs dirty any,
+       (s.offsets.map fun p => Obsv.closereq p.1) ++ offs.map fun p => Obsv.openreq p.1 p.2) := by
+  have hr' : ¬ lo > hi := Nat.not_lt.2 hr
+  have hs' : s.savers.isEmpty = true := by rw [hs]; rfl
+  simp only [rebalBase, closedOf] at hl
+  simp [rebalanceSession, h, hs', hr', closeSession, hl, rebalBase, closedOf, rebalDone, initObs,
+    AMap.set_set_same]
+
+/-- the three outcomes of a rebalance: refused (generator error, nothing changes), fail-stop of the
+    load, or closed / re-ranged / loaded again -/
+theorem rebalanceSession_cases (s : St) (lo hi : Vb) :
+    (∃ why, rebalanceSession s lo hi = (s, [.bad why])) ∨
+    (s.isOpen = true ∧ s.savers = [] ∧ lo ≤ hi ∧ load (rebalBase s lo hi) = none ∧
+      rebalanceSession s lo hi =
+        ({ rebalBase s lo hi with everOpened := false },
+         (s.offsets.map fun p => Obsv.closereq p.1) ++ [.failstop "checkpoint-ahead"])) ∨
+    (∃ offs dirty any, s.isOpen = true ∧ s.savers = [] ∧ lo ≤ hi ∧
+      load (rebalBase s lo hi) = some (offs, dirty, any) ∧
+      rebalanceSession s lo hi =
+        (rebalDone s lo hi offs dirty any,
+         (s.offsets.map fun p => Obsv.closereq p.1) ++ offs.map fun p => Obsv.openreq p.1 p.2)) := by
+  by_cases h : s.isOpen = true
+  · by_cases hs : s.savers = []
+    · by_cases hr : lo ≤ hi
+      · cases hl : load (rebalBase s lo hi) with
+        | none => exact Or.inr (Or.inl ⟨h, hs, hr, rfl, rebalanceSession_of_load_none h hs hr hl⟩)
+        | some r =>
+          obtain ⟨offs, dirty, any⟩ := r
+          exact Or.inr (Or.inr ⟨offs, dirty, any, h, hs, hr, rfl, rebalanceSession_of_load_some h hs hr hl⟩)
+      · exact Or.inl ⟨_, rebalanceSession_of_empty h hs (Nat.lt_of_not_le hr)⟩
+    · exact Or.inl ⟨_, rebalanceSession_of_savers lo hi h hs⟩
+  · exact Or.inl ⟨_, rebalanceSession_of_not_open lo hi (by simpa using h)⟩
+
+/-- a rebalance keeps every configuration switch but the range -/
+theorem rebalanceSession_cfg (s : St) (lo hi : Vb) :
+    (rebalanceSession s lo hi).1.cfg = s.cfg ∨ (rebalanceSession s lo hi).1.cfg = { s.cfg with lo := lo, hi := hi } := by
+  rcases rebalanceSession_cases s lo hi with ⟨_, h⟩ | ⟨_, _, _, _, h⟩ | ⟨_, _, _, _, _, _, _, h⟩ <;> rw [h]
+  · exact Or.inl rfl
+  · exact Or.inr rfl
+  · exact Or.inr rfl
+
+@[simp] theorem rebalanceSession_cfg_obs (s : St) (lo hi : Vb) : (rebalanceSession s lo hi).1.cfg.obs = s.cfg.obs := by
+  rcases rebalanceSession_cfg s lo hi with h | h <;> rw [h]
+@[simp] theorem rebalanceSession_cfg_finite (s : St) (lo hi : Vb) :
+    (rebalanceSession s lo hi).1.cfg.finite = s.cfg.finite := by
+  rcases rebalanceSession_cfg s lo hi with h | h <;> rw [h]
+@[simp] theorem rebalanceSession_cfg_resetLatest (s : St) (lo hi : Vb) :
+    (rebalanceSession s lo hi).1.cfg.resetLatest = s.cfg.resetLatest := by
+  rcases rebalanceSession_cfg s lo hi with h | h <;> rw [h]
+@[simp] theorem rebalanceSession_cfg_readOnly (s : St) (lo hi : Vb) :
+    (rebalanceSession s lo hi).1.cfg.readOnly = s.cfg.readOnly := by
+  rcases rebalanceSession_cfg s lo hi with h | h <;> rw [h]
+@[simp] theorem rebalanceSession_store (s : St) (lo hi : Vb) : (rebalanceSession s lo hi).1.store = s.store := by
+  rcases rebalanceSession_cases s lo hi with ⟨_, h⟩ | ⟨_, _, _, _, h⟩ | ⟨_, _, _, _, _, _, _, h⟩ <;> rw [h] <;> rfl
+@[simp] theorem rebalanceSession_high (s : St) (lo hi : Vb) : (rebalanceSession s lo hi).1.high = s.high := by
+  rcases rebalanceSession_cases s lo hi with ⟨_, h⟩ | ⟨_, _, _, _, h⟩ | ⟨_, _, _, _, _, _, _, h⟩ <;> rw [h] <;> rfl
+@[simp] theorem rebalanceSession_flog (s : St) (lo hi : Vb) : (rebalanceSession s lo hi).1.flog = s.flog := by
+  rcases rebalanceSession_cases s lo hi with ⟨_, h⟩ | ⟨_, _, _, _, h⟩ | ⟨_, _, _, _, _, _, _, h⟩ <;> rw [h] <;> rfl
+@[simp] theorem rebalanceSession_sess (s : St) (lo hi : Vb) : (rebalanceSession s lo hi).1.sess = s.sess := by
+  rcases rebalanceSession_cases s lo hi with ⟨_, h⟩ | ⟨_, _, _, _, h⟩ | ⟨_, _, _, _, _, _, _, h⟩ <;> rw [h] <;> rfl
+@[simp] theorem rebalanceSession_ctxs (s : St) (lo hi : Vb) : (rebalanceSession s lo hi).1.ctxs = s.ctxs := by
+  rcases rebalanceSession_cases s lo hi with ⟨_, h⟩ | ⟨_, _, _, _, h⟩ | ⟨_, _, _, _, _, _, _, h⟩ <;> rw [h] <;> rfl
+@[simp] theorem rebalanceSession_savers (s : St) (lo hi : Vb) : (rebalanceSession s lo hi).1.savers = s.savers := by
+  rcases rebalanceSession_cases s lo hi with ⟨_, h⟩ | ⟨_, _, _, _, h⟩ | ⟨_, _, _, _, _, _, _, h⟩ <;> rw [h] <;> rfl
+@[simp] theorem rebalanceSession_lockHeld (s : St) (lo hi : Vb) :
+    (rebalanceSession s lo hi).1.lockHeld = s.lockHeld := by
+  rcases rebalanceSession_cases s lo hi with ⟨_, h⟩ | ⟨_, _, _, _, h⟩ | ⟨_, _, _, _, _, _, _, h⟩ <;> rw [h] <;> rfl
+
+/-- the two outcomes of a transient stream end: refused, or the same position requested again and
+    the observer's branch id set to the current head of the failover log -/
+theorem reopenStream_cases (s : St) (vb : Vb) :
+    (∃ why, reopenStream s vb = (s, [.bad why])) ∨
+    (∃ o ob, s.isOpen = true ∧ s.offsets.get? vb = some o ∧ s.observers.get? vb = some ob ∧
+      reopenStream s vb =
+        ({ s with observers := s.observers.set vb (ob.setUuid ((s.flog.get? vb).getD 0)) }, [.openreq vb o])) := by
+  unfold reopenStream
+  by_cases h : s.isOpen = true
+  · cases ho : s.offsets.get? vb with
+    | none => exact Or.inl ⟨"vb not streamed", by simp [h]⟩
+    | some o =>
+      cases hb : s.observers.get? vb with
+      | none => exact Or.inl ⟨"vb not streamed", by simp [h]⟩
+      | some ob => exact Or.inr ⟨o, ob, h, rfl, rfl, by simp [h]⟩
+  · exact Or.inl ⟨"not open", by simp [h]⟩
+
+/-- a rebalance whose preconditions fail changes nothing -/
+theorem rebalanceSession_of_refused {s : St} {lo hi : Vb} (hc : ¬ (s.isOpen = true ∧ s.savers = [] ∧ lo ≤ hi)) :
+    ∃ why, rebalanceSession s lo hi = (s, [.bad why]) := by
+  rcases rebalanceSession_cases s lo hi with h | ⟨h1, h2, h3, _⟩ | ⟨_, _, _, h1, h2, h3, _⟩
+  · exact h
+  · exact absurd ⟨h1, h2, h3⟩ hc
+  · exact absurd ⟨h1, h2, h3⟩ hc
+
+/-- a reopen of a closed stream, or of a vBucket without position or observer, changes nothing -/
+theorem reopenStream_of_refused {s : St} {vb : Vb}
+    (hc : ¬ (s.isOpen = true ∧ (s.offsets.get? vb).isSome = true ∧ (s.observers.get? vb).isSome = true)) :
+    ∃ why, reopenStream s vb = (s, [.bad why]) := by
+  rcases reopenStream_cases s vb with h | ⟨o, ob, h1, h2, h3, _⟩
+  · exact h
+  · exact absurd ⟨h1, by simp [h2], by simp [h3]⟩ hc
+
+@[simp] theorem reopenStream_cfg (s : St) (vb : Vb) : (reopenStream s vb).1.cfg = s.cfg := by
+  rcases reopenStream_cases s vb with ⟨_, h⟩ | ⟨_, _, _, _, _, h⟩ <;> rw [h]
+@[simp] theorem reopenStream_store (s : St) (vb : Vb) : (reopenStream s vb).1.store = s.store := by
+  rcases reopenStream_cases s vb with ⟨_, h⟩ | ⟨_, _, _, _, _, h⟩ <;> rw [h]
+@[simp] theorem reopenStream_high (s : St) (vb : Vb) : (reopenStream s vb).1.high = s.high := by
+  rcases reopenStream_cases s vb with ⟨_, h⟩ | ⟨_, _, _, _, _, h⟩ <;> rw [h]
+@[simp] theorem reopenStream_flog (s : St) (vb : Vb) : (reopenStream s vb).1.flog = s.flog := by
+  rcases reopenStream_cases s vb with ⟨_, h⟩ | ⟨_, _, _, _, _, h⟩ <;> rw [h]
+@[simp] theorem reopenStream_sess (s : St) (vb : Vb) : (reopenStream s vb).1.sess = s.sess := by
+  rcases reopenStream_cases s vb with ⟨_, h⟩ | ⟨_, _, _, _, _, h⟩ <;> rw [h]
+@[simp] theorem reopenStream_isOpen (s : St) (vb : Vb) : (reopenStream s vb).1.isOpen = s.isOpen := by
+  rcases reopenStream_cases s vb with ⟨_, h⟩ | ⟨_, _, _, _, _, h⟩ <;> rw [h]
+@[simp] theorem reopenStream_everOpened (s : St) (vb : Vb) : (reopenStream s vb).1.everOpened = s.everOpened := by
+  rcases reopenStream_cases s vb with ⟨_, h⟩ | ⟨_, _, _, _, _, h⟩ <;> rw [h]
+@[simp] theorem reopenStream_offsets (s : St) (vb : Vb) : (reopenStream s vb).1.offsets = s.offsets := by
+  rcases reopenStream_cases s vb with ⟨_, h⟩ | ⟨_, _, _, _, _, h⟩ <;> rw [h]
+@[simp] theorem reopenStream_dirtyMaps (s : St) (vb : Vb) : (reopenStream s vb).1.dirtyMaps = s.dirtyMaps := by
+  rcases reopenStream_cases s vb with ⟨_, h⟩ | ⟨_, _, _, _, _, h⟩ <;> rw [h]
+@[simp] theorem reopenStream_curGen (s : St) (vb : Vb) : (reopenStream s vb).1.curGen = s.curGen := by
+  rcases reopenStream_cases s vb with ⟨_, h⟩ | ⟨_, _, _, _, _, h⟩ <;> rw [h]
+@[simp] theorem reopenStream_nextGen (s : St) (vb : Vb) : (reopenStream s vb).1.nextGen = s.nextGen := by
+  rcases reopenStream_cases s vb with ⟨_, h⟩ | ⟨_, _, _, _, _, h⟩ <;> rw [h]
+@[simp] theorem reopenStream_anyDirty (s : St) (vb : Vb) : (reopenStream s vb).1.anyDirty = s.anyDirty := by
+  rcases reopenStream_cases s vb with ⟨_, h⟩ | ⟨_, _, _, _, _, h⟩ <;> rw [h]
+@[simp] theorem reopenStream_obsNil (s : St) (vb : Vb) : (reopenStream s vb).1.obsNil = s.obsNil := by
+  rcases reopenStream_cases s vb with ⟨_, h⟩ | ⟨_, _, _, _, _, h⟩ <;> rw [h]
+@[simp] theorem reopenStream_ctxs (s : St) (vb : Vb) : (reopenStream s vb).1.ctxs = s.ctxs := by
+  rcases reopenStream_cases s vb with ⟨_, h⟩ | ⟨_, _, _, _, _, h⟩ <;> rw [h]
+@[simp] theorem reopenStream_savers (s : St) (vb : Vb) : (reopenStream s vb).1.savers = s.savers := by
+  rcases reopenStream_cases s vb with ⟨_, h⟩ | ⟨_, _, _, _, _, h⟩ <;> rw [h]
+@[simp] theorem reopenStream_lockHeld (s : St) (vb : Vb) : (reopenStream s vb).1.lockHeld = s.lockHeld := by
+  rcases reopenStream_cases s vb with ⟨_, h⟩ | ⟨_, _, _, _, _, h⟩ <;> rw [h]
+
+/-- what a refused / accepted reopen says: never anything but `bad` or one stream request -/
+theorem reopenStream_out (s : St) (vb : Vb) :
+    (∃ why, (reopenStream s vb).2 = [.bad why]) ∨ ∃ o, s.offsets.get? vb = some o ∧ (reopenStream s vb).2 = [.openreq vb o] := by
+  rcases reopenStream_cases s vb with ⟨w, h⟩ | ⟨o, _, _, ho, _, h⟩ <;> rw [h]
+  · exact Or.inl ⟨w, rfl⟩
+  · exact Or.inr ⟨o, ho, rfl⟩
+
+/-- the observation list of a rebalance: `bad`, or the close requests of the old range followed by
+    the fail-stop or the stream requests of the new one -/
+theorem mem_rebalanceSession_out {s : St} {lo hi : Vb} {x : Obsv} (h : x ∈ (rebalanceSession s lo hi).2) :
+    (∃ why, x = .bad why) ∨ (∃ vb, x = .closereq vb) ∨ x = .failstop "checkpoint-ahead" ∨
+    ∃ offs dirty any vb o, s.isOpen = true ∧ s.savers = [] ∧ lo ≤ hi ∧
+      load (rebalBase s lo hi) = some (offs, dirty, any) ∧ (vb, o) ∈ offs ∧ x = .openreq vb o ∧
+      (rebalanceSession s lo hi).1 = rebalDone s lo hi offs dirty any := by
+  rcases rebalanceSession_cases s lo hi with ⟨w, e⟩ | ⟨_, _, _, _, e⟩ | ⟨offs, dirty, any, h1, h2, h3, hl, e⟩ <;>
+    rw [e] at h ⊢
+  · simp at h; exact Or.inl ⟨w, h⟩
+  · simp only [List.mem_append, List.mem_map, List.mem_singleton] at h
+    rcases h with ⟨p, _, rfl⟩ | h
+    · exact Or.inr (Or.inl ⟨_, rfl⟩)
+    · exact Or.inr (Or.inr (Or.inl h))
+  · simp only [List.mem_append, List.mem_map] at h
+    rcases h with ⟨p, _, rfl⟩ | ⟨p, hp, rfl⟩
+    · exact Or.inr (Or.inl ⟨_, rfl⟩)
+    · exact Or.inr (Or.inr (Or.inr ⟨offs, dirty, any, p.1, p.2, h1, h2, h3, hl, hp, rfl, rfl⟩))
+
+theorem mem_reopenStream_out {s : St} {vb : Vb} {x : Obsv} (h : x ∈ (reopenStream s vb).2) :
+    (∃ why, x = .bad why) ∨ ∃ o ob, s.isOpen = true ∧ s.offsets.get? vb = some o ∧ s.observers.get? vb = some ob ∧
+      x = .openreq vb o ∧
+      (reopenStream s vb).1 = { s with observers := s.observers.set vb (ob.setUuid ((s.flog.get? vb).getD 0)) } := by
+  rcases reopenStream_cases s vb with ⟨w, e⟩ | ⟨o, ob, h1, h2, h3, e⟩ <;> rw [e] at h ⊢
+  · simp at h; exact Or.inl ⟨w, h⟩
+  · simp at h; exact Or.inr ⟨o, ob, h1, h2, h3, h, rfl⟩
+
 /-! ### `checkpoint.Load` -/
 
 /-- the two ways `load` succeeds; in both the result is one offset per assigned vBucket -/
@@ -1254,9 +1531,36 @@ by `step`. -/
 macro "step_frame" : tactic =>
   `(tactic| (simp only [step] <;> (repeat' split) <;> simp))
 
-/-- no op changes the configuration -/
-@[simp] theorem step_cfg (s : St) (op : Op) : (step s op).1.cfg = s.cfg := by
-  cases op <;> step_frame
+/-- ops that may change the configuration: a rebalance changes the vBucket range (and nothing else
+    of the configuration, see `step_cfg_obs` … `step_cfg_readOnly`) -/
+def Op.touchesCfg : Op → Bool
+  | .rebalance _ _ => true
+  | _ => false
+
+/-- no op but a rebalance changes the configuration -/
+theorem step_cfg (s : St) {op : Op} (h : op.touchesCfg = false) : (step s op).1.cfg = s.cfg := by
+  cases op <;> simp [Op.touchesCfg] at h <;> step_frame
+
+/-- the configuration after a step: the old one, or (rebalance) the old one with the new range -/
+theorem step_cfg_cases (s : St) (op : Op) :
+    (step s op).1.cfg = s.cfg ∨ ∃ lo hi, op = .rebalance lo hi ∧ (step s op).1.cfg = { s.cfg with lo := lo, hi := hi } := by
+  by_cases h : op.touchesCfg = false
+  · exact Or.inl (step_cfg s h)
+  · cases op <;> simp [Op.touchesCfg] at h
+    rename_i lo hi
+    rcases rebalanceSession_cfg s lo hi with h | h
+    · exact Or.inl h
+    · exact Or.inr ⟨lo, hi, rfl, h⟩
+
+/-- no op changes the observer configuration, the finite / reset-to-latest / read-only switches -/
+@[simp] theorem step_cfg_obs (s : St) (op : Op) : (step s op).1.cfg.obs = s.cfg.obs := by
+  rcases step_cfg_cases s op with h | ⟨_, _, _, h⟩ <;> rw [h]
+@[simp] theorem step_cfg_finite (s : St) (op : Op) : (step s op).1.cfg.finite = s.cfg.finite := by
+  rcases step_cfg_cases s op with h | ⟨_, _, _, h⟩ <;> rw [h]
+@[simp] theorem step_cfg_resetLatest (s : St) (op : Op) : (step s op).1.cfg.resetLatest = s.cfg.resetLatest := by
+  rcases step_cfg_cases s op with h | ⟨_, _, _, h⟩ <;> rw [h]
+@[simp] theorem step_cfg_readOnly (s : St) (op : Op) : (step s op).1.cfg.readOnly = s.cfg.readOnly := by
+  rcases step_cfg_cases s op with h | ⟨_, _, _, h⟩ <;> rw [h]
 
 /-- ops that may change `store` -/
 def Op.touchesStore : Op → Bool
@@ -1292,7 +1596,7 @@ theorem step_sess (s : St) {op : Op} (h : op.touchesSess = false) : (step s op).
 
 /-- ops that may change `isOpen` -/
 def Op.touchesIsOpen : Op → Bool
-  | .open | .close | .crash => true
+  | .open | .close | .crash | .rebalance _ _ => true
   | _ => false
 
 theorem step_isOpen (s : St) {op : Op} (h : op.touchesIsOpen = false) : (step s op).1.isOpen = s.isOpen := by
@@ -1300,7 +1604,7 @@ theorem step_isOpen (s : St) {op : Op} (h : op.touchesIsOpen = false) : (step s 
 
 /-- ops that may change `everOpened` -/
 def Op.touchesEverOpened : Op → Bool
-  | .open | .crash => true
+  | .open | .crash | .rebalance _ _ => true
   | _ => false
 
 theorem step_everOpened (s : St) {op : Op} (h : op.touchesEverOpened = false) : (step s op).1.everOpened = s.everOpened := by
@@ -1308,7 +1612,7 @@ theorem step_everOpened (s : St) {op : Op} (h : op.touchesEverOpened = false) : 
 
 /-- ops that may change `offsets` -/
 def Op.touchesOffsets : Op → Bool
-  | .open | .close | .crash | .ev _ _ | .ack _ => true
+  | .open | .close | .crash | .ev _ _ | .ack _ | .rebalance _ _ => true
   | _ => false
 
 theorem step_offsets (s : St) {op : Op} (h : op.touchesOffsets = false) : (step s op).1.offsets = s.offsets := by
@@ -1316,7 +1620,7 @@ theorem step_offsets (s : St) {op : Op} (h : op.touchesOffsets = false) : (step 
 
 /-- ops that may change `dirtyMaps` -/
 def Op.touchesDirtyMaps : Op → Bool
-  | .open | .close | .crash | .ev _ _ | .ack _ | .save _ | .svUnmark _ => true
+  | .open | .close | .crash | .ev _ _ | .ack _ | .save _ | .svUnmark _ | .rebalance _ _ => true
   | _ => false
 
 theorem step_dirtyMaps (s : St) {op : Op} (h : op.touchesDirtyMaps = false) : (step s op).1.dirtyMaps = s.dirtyMaps := by
@@ -1324,7 +1628,7 @@ theorem step_dirtyMaps (s : St) {op : Op} (h : op.touchesDirtyMaps = false) : (s
 
 /-- ops that may change `curGen` -/
 def Op.touchesCurGen : Op → Bool
-  | .open | .close | .crash | .save _ | .svUnmark _ => true
+  | .open | .close | .crash | .save _ | .svUnmark _ | .rebalance _ _ => true
   | _ => false
 
 theorem step_curGen (s : St) {op : Op} (h : op.touchesCurGen = false) : (step s op).1.curGen = s.curGen := by
@@ -1332,7 +1636,7 @@ theorem step_curGen (s : St) {op : Op} (h : op.touchesCurGen = false) : (step s 
 
 /-- ops that may change `nextGen` -/
 def Op.touchesNextGen : Op → Bool
-  | .open | .close | .crash | .save _ | .svUnmark _ => true
+  | .open | .close | .crash | .save _ | .svUnmark _ | .rebalance _ _ => true
   | _ => false
 
 theorem step_nextGen (s : St) {op : Op} (h : op.touchesNextGen = false) : (step s op).1.nextGen = s.nextGen := by
@@ -1340,7 +1644,7 @@ theorem step_nextGen (s : St) {op : Op} (h : op.touchesNextGen = false) : (step 
 
 /-- ops that may change `anyDirty` -/
 def Op.touchesAnyDirty : Op → Bool
-  | .open | .crash | .ack _ | .save _ | .svUnmark _ => true
+  | .open | .crash | .ack _ | .save _ | .svUnmark _ | .rebalance _ _ => true
   | _ => false
 
 theorem step_anyDirty (s : St) {op : Op} (h : op.touchesAnyDirty = false) : (step s op).1.anyDirty = s.anyDirty := by
@@ -1348,7 +1652,7 @@ theorem step_anyDirty (s : St) {op : Op} (h : op.touchesAnyDirty = false) : (ste
 
 /-- ops that may change `observers` -/
 def Op.touchesObservers : Op → Bool
-  | .open | .close | .crash | .ev _ _ | .persist _ _ => true
+  | .open | .close | .crash | .ev _ _ | .persist _ _ | .rebalance _ _ | .reopen _ => true
   | _ => false
 
 theorem step_observers (s : St) {op : Op} (h : op.touchesObservers = false) : (step s op).1.observers = s.observers := by
@@ -1356,7 +1660,7 @@ theorem step_observers (s : St) {op : Op} (h : op.touchesObservers = false) : (s
 
 /-- ops that may change `obsNil` -/
 def Op.touchesObsNil : Op → Bool
-  | .open | .close | .crash => true
+  | .open | .close | .crash | .rebalance _ _ => true
   | _ => false
 
 theorem step_obsNil (s : St) {op : Op} (h : op.touchesObsNil = false) : (step s op).1.obsNil = s.obsNil := by
@@ -1437,10 +1741,33 @@ theorem run_induction {P : St → Prop} {ok : Op → Prop} (hstep : ∀ s op, ok
     rw [run_cons]
     exact ih _ (fun o ho => hok o (List.mem_cons_of_mem _ ho)) (hstep s op (hok op List.mem_cons_self) h)
 
-@[simp] theorem run_cfg (s : St) (ops : List Op) : (run s ops).cfg = s.cfg := by
+/-- a run without a rebalance keeps the configuration -/
+theorem run_cfg (s : St) (ops : List Op) (h : ∀ op ∈ ops, op.touchesCfg = false) : (run s ops).cfg = s.cfg := by
   induction ops generalizing s with
   | nil => rfl
-  | cons op r ih => rw [run_cons, ih, step_cfg]
+  | cons op r ih =>
+    rw [run_cons, ih _ (fun o ho => h o (List.mem_cons_of_mem _ ho)), step_cfg s (h op List.mem_cons_self)]
+
+@[simp] theorem run_cfg_obs (s : St) (ops : List Op) : (run s ops).cfg.obs = s.cfg.obs := by
+  induction ops generalizing s with
+  | nil => rfl
+  | cons op r ih => rw [run_cons, ih, step_cfg_obs]
+@[simp] theorem run_cfg_finite (s : St) (ops : List Op) : (run s ops).cfg.finite = s.cfg.finite := by
+  induction ops generalizing s with
+  | nil => rfl
+  | cons op r ih => rw [run_cons, ih, step_cfg_finite]
+@[simp] theorem run_cfg_resetLatest (s : St) (ops : List Op) : (run s ops).cfg.resetLatest = s.cfg.resetLatest := by
+  induction ops generalizing s with
+  | nil => rfl
+  | cons op r ih => rw [run_cons, ih, step_cfg_resetLatest]
+@[simp] theorem run_cfg_readOnly (s : St) (ops : List Op) : (run s ops).cfg.readOnly = s.cfg.readOnly := by
+  induction ops generalizing s with
+  | nil => rfl
+  | cons op r ih => rw [run_cons, ih, step_cfg_readOnly]
+
+/-- in-session ops keep the whole configuration -/
+theorem step_cfg_of_inSession (s : St) {op : Op} (h : inSession op = true) : (step s op).1.cfg = s.cfg := by
+  apply step_cfg; cases op <;> simp [inSession] at h <;> rfl
 
 theorem run_ctxs_prefix (s : St) (ops : List Op) : s.ctxs <+: (run s ops).ctxs := by
   induction ops generalizing s with
@@ -1538,7 +1865,7 @@ theorem step_saveCall {s : St} {op : Op} {st : List (Vb × Doc)} {d : List Vb}
   cases op <;> simp only [step] at h
   case setStore => split at h <;> simp at h
   case setHigh => simp at h
-  case setFlog => split at h <;> simp at h
+  case setFlog => simp at h
   case «open» =>
     simp only [openSession] at h
     split at h
@@ -1580,6 +1907,10 @@ theorem step_saveCall {s : St} {op : Op} {st : List (Vb × Doc)} {d : List Vb}
   case getOffsets => simp at h
   case metrics => (repeat' split at h) <;> simp at h
   case scrape => simp only [scrape] at h; split at h <;> simp at h
+  case rebalance lo hi =>
+    rcases mem_rebalanceSession_out h with ⟨_, h⟩ | ⟨_, h⟩ | h | ⟨_, _, _, _, _, _, _, _, _, _, h, _⟩ <;> cases h
+  case reopen vb =>
+    rcases mem_reopenStream_out h with ⟨_, h⟩ | ⟨_, _, _, _, _, h, _⟩ <;> cases h
 
 /-- whatever a step reports as made durable comes out of a dump: one a saver in flight took earlier,
     or (whole save) the current offsets, restricted to the dirty list that saver captured -/
@@ -1589,7 +1920,7 @@ theorem step_written {s : St} {op : Op} {w : List (Vb × Doc)} (h : Obsv.written
   cases op <;> simp only [step] at h
   case setStore => split at h <;> simp at h
   case setHigh => simp at h
-  case setFlog => split at h <;> simp at h
+  case setFlog => simp at h
   case «open» =>
     simp only [openSession] at h
     split at h
@@ -1635,6 +1966,10 @@ theorem step_written {s : St} {op : Op} {w : List (Vb × Doc)} (h : Obsv.written
   case getOffsets => simp at h
   case metrics => (repeat' split at h) <;> simp at h
   case scrape => simp only [scrape] at h; split at h <;> simp at h
+  case rebalance lo hi =>
+    rcases mem_rebalanceSession_out h with ⟨_, h⟩ | ⟨_, h⟩ | h | ⟨_, _, _, _, _, _, _, _, _, _, h, _⟩ <;> cases h
+  case reopen vb =>
+    rcases mem_reopenStream_out h with ⟨_, h⟩ | ⟨_, _, _, _, _, h, _⟩ <;> cases h
 
 /-- the durable store after a step: what was there, what the environment put (`setStore`),
     or what the step reported as written -/
@@ -1789,7 +2124,7 @@ theorem step_tracks (s : St) (op : Op) : tracksOut (step s op).2 = settleOut s (
   cases op <;> simp only [step, settle?, settleOut]
   case setStore => split <;> rfl
   case setHigh => rfl
-  case setFlog => split <;> rfl
+  case setFlog => rfl
   case «open» =>
     simp only [openSession]
     split
@@ -1836,6 +2171,16 @@ theorem step_tracks (s : St) (op : Op) : tracksOut (step s op).2 = settleOut s (
   case getOffsets => rfl
   case metrics => (repeat' split) <;> rfl
   case scrape => simp only [scrape]; split <;> rfl
+  case rebalance lo hi =>
+    apply List.eq_nil_iff_forall_not_mem.2
+    rintro ⟨vb, o⟩ hm
+    rw [mem_tracksOut] at hm
+    rcases mem_rebalanceSession_out hm with ⟨_, h⟩ | ⟨_, h⟩ | h | ⟨_, _, _, _, _, _, _, _, _, _, h, _⟩ <;> cases h
+  case reopen vb =>
+    apply List.eq_nil_iff_forall_not_mem.2
+    rintro ⟨vb', o⟩ hm
+    rw [mem_tracksOut] at hm
+    rcases mem_reopenStream_out hm with ⟨_, h⟩ | ⟨_, _, _, _, _, h, _⟩ <;> cases h
 
 /-- only in-session ops settle anything -/
 theorem inSession_of_settle {s : St} {op : Op} {x : Vb × Offset} (h : settle? s op = some x) : inSession op = true := by
@@ -1903,7 +2248,7 @@ theorem step_deliver {s : St} {op : Op} {i : Nat} {vb : Vb} {d : DocEv} {off : O
   cases op <;> simp only [step] at h
   case setStore => split at h <;> simp at h
   case setHigh => simp at h
-  case setFlog => split at h <;> simp at h
+  case setFlog => simp at h
   case «open» =>
     simp only [openSession] at h
     split at h
@@ -1954,16 +2299,25 @@ theorem step_deliver {s : St} {op : Op} {i : Nat} {vb : Vb} {d : DocEv} {off : O
   case getOffsets => simp at h
   case metrics => (repeat' split at h) <;> simp at h
   case scrape => simp only [scrape] at h; split at h <;> simp at h
+  case rebalance lo hi =>
+    rcases mem_rebalanceSession_out h with ⟨_, h⟩ | ⟨_, h⟩ | h | ⟨_, _, _, _, _, _, _, _, _, _, h, _⟩ <;> cases h
+  case reopen vb =>
+    rcases mem_reopenStream_out h with ⟨_, h⟩ | ⟨_, _, _, _, _, h, _⟩ <;> cases h
 
-/-- a stream request is issued only by `open`, one per loaded offset, and that offset is the
-    position the session starts from -/
+/-- a stream request is issued only by `open` and by a rebalance, one per loaded offset, that offset
+    being the position the session (re)starts from; and by a reopen, for the current position of
+    that vBucket. In every case the requested offset is the tracked one after the step. -/
 theorem step_openreq {s : St} {op : Op} {vb : Vb} {o : Offset} (h : Obsv.openreq vb o ∈ (step s op).2) :
-    (∃ offs dirty any, s.isOpen = false ∧ load (openBase s) = some (offs, dirty, any) ∧ (vb, o) ∈ offs) ∧
+    ((∃ offs dirty any, op = .open ∧ s.isOpen = false ∧ load (openBase s) = some (offs, dirty, any) ∧ (vb, o) ∈ offs) ∨
+     (∃ lo hi offs dirty any, op = .rebalance lo hi ∧ s.isOpen = true ∧ s.savers = [] ∧ lo ≤ hi ∧
+        load (rebalBase s lo hi) = some (offs, dirty, any) ∧ (vb, o) ∈ offs ∧
+        (step s op).1 = rebalDone s lo hi offs dirty any) ∨
+     (op = .reopen vb ∧ s.isOpen = true ∧ s.offsets.get? vb = some o)) ∧
     (vb, o) ∈ (step s op).1.offsets := by
   cases op <;> simp only [step] at h
   case setStore => split at h <;> simp at h
   case setHigh => simp at h
-  case setFlog => split at h <;> simp at h
+  case setFlog => simp at h
   case «open» =>
     by_cases h0 : s.isOpen = true
     · rw [openSession_of_isOpen h0] at h; simp at h
@@ -1976,7 +2330,7 @@ theorem step_openreq {s : St} {op : Op} {vb : Vb} {o : Offset} (h : Obsv.openreq
         rw [openSession_of_load_some h0 hl] at h ⊢
         simp only [List.mem_map, Obsv.openreq.injEq] at h
         obtain ⟨⟨v, o'⟩, hm, rfl, rfl⟩ := h
-        exact ⟨⟨offs, dirty, any, h0, rfl, hm⟩, hm⟩
+        exact ⟨Or.inl ⟨offs, dirty, any, trivial, h0, rfl, hm⟩, hm⟩
   case close => simp only [closeSession] at h; split at h <;> simp at h
   case crash => simp [crash] at h
   case ev vb' e =>
@@ -2005,6 +2359,15 @@ theorem step_openreq {s : St} {op : Op} {vb : Vb} {o : Offset} (h : Obsv.openreq
   case getOffsets => simp at h
   case metrics => (repeat' split at h) <;> simp at h
   case scrape => simp only [scrape] at h; split at h <;> simp at h
+  case rebalance lo hi =>
+    rcases mem_rebalanceSession_out h with ⟨_, h⟩ | ⟨_, h⟩ | h |
+      ⟨offs, dirty, any, v, o', h1, h2, h3, hl, hm, h, he⟩ <;> cases h
+    simp only [step]
+    exact ⟨Or.inr (Or.inl ⟨lo, hi, offs, dirty, any, rfl, h1, h2, h3, hl, hm, he⟩), by rw [he]; exact hm⟩
+  case reopen vb' =>
+    rcases mem_reopenStream_out h with ⟨_, h⟩ | ⟨o', _, h1, h2, _, h, _⟩ <;> cases h
+    simp only [step, reopenStream_offsets]
+    exact ⟨Or.inr (Or.inr ⟨trivial, h1, h2⟩), AMap.mem_of_get?_eq_some h2⟩
 
 
 /-- the context list grows exactly when something is delivered, by that delivery's context -/
@@ -2046,7 +2409,7 @@ theorem step_saveCall_op {s : St} {op : Op} {st : List (Vb × Doc)} {d : List Vb
   cases op <;> simp only [step] at h
   case setStore => split at h <;> simp at h
   case setHigh => simp at h
-  case setFlog => split at h <;> simp at h
+  case setFlog => simp at h
   case «open» =>
     simp only [openSession] at h
     split at h
@@ -2080,6 +2443,10 @@ theorem step_saveCall_op {s : St} {op : Op} {st : List (Vb × Doc)} {d : List Vb
   case getOffsets => simp at h
   case metrics => (repeat' split at h) <;> simp at h
   case scrape => simp only [scrape] at h; split at h <;> simp at h
+  case rebalance lo hi =>
+    rcases mem_rebalanceSession_out h with ⟨_, h⟩ | ⟨_, h⟩ | h | ⟨_, _, _, _, _, _, _, _, _, _, h, _⟩ <;> cases h
+  case reopen vb =>
+    rcases mem_reopenStream_out h with ⟨_, h⟩ | ⟨_, _, _, _, _, h, _⟩ <;> cases h
 
 /-- only a save (whole, or its store micro-step) reports a durable write -/
 theorem step_written_op {s : St} {op : Op} {w : List (Vb × Doc)}
@@ -2087,7 +2454,7 @@ theorem step_written_op {s : St} {op : Op} {w : List (Vb × Doc)}
   cases op <;> simp only [step] at h
   case setStore => split at h <;> simp at h
   case setHigh => simp at h
-  case setFlog => split at h <;> simp at h
+  case setFlog => simp at h
   case «open» =>
     simp only [openSession] at h
     split at h
@@ -2121,6 +2488,10 @@ theorem step_written_op {s : St} {op : Op} {w : List (Vb × Doc)}
   case getOffsets => simp at h
   case metrics => (repeat' split at h) <;> simp at h
   case scrape => simp only [scrape] at h; split at h <;> simp at h
+  case rebalance lo hi =>
+    rcases mem_rebalanceSession_out h with ⟨_, h⟩ | ⟨_, h⟩ | h | ⟨_, _, _, _, _, _, _, _, _, _, h, _⟩ <;> cases h
+  case reopen vb =>
+    rcases mem_reopenStream_out h with ⟨_, h⟩ | ⟨_, _, _, _, _, h, _⟩ <;> cases h
 
 /-! ## reserved keys -/
 
